@@ -12,6 +12,10 @@ fn replay(prop: &str) -> fn(&str, &Value) -> Result<(), String> {
 }
 
 fn main() {
+    // see wallet_mc/src/main.rs: drop SQLite's process-wide memory-statistics mutex (before any connection)
+    unsafe {
+        rusqlite::ffi::sqlite3_config(rusqlite::ffi::SQLITE_CONFIG_MEMSTATUS, 0);
+    }
     let args = Args::parse();
     let rp = replay(&args.prop);
     if let Some(p) = &args.replay {
